@@ -1,7 +1,7 @@
 (* LRCase.v — evaluation of T2 cases: what the real ply parser built from /repo did on a token
    sequence (observed by tools/run_lr.py) against the model (tie) and against the documented
    grammar (property: the p_ functions called are a rightmost derivation in reverse). *)
-From Coq Require Import List Arith Bool.
+From Coq Require Import List Arith Bool NArith.
 From BP Require Import LR LRConcrete.
 From BPGen Require Import GenLR.
 Import ListNotations.
@@ -35,3 +35,10 @@ Definition case_code (c : list nat * obs) : nat :=
      | _ => 0
      end)
   + (match m with (2, _, _, _) | (3, _, _, _) => 4 | _ => 0 end).
+
+(* case files carry binary numbers (cheap to parse and type-check); converted here *)
+Definition obsN : Type := (N * N * N * list N)%type.
+Definition obs_of_N (o : obsN) : obs :=
+  match o with (a, b, c, l) => (N.to_nat a, N.to_nat b, N.to_nat c, map N.to_nat l) end.
+Definition case_code_N (c : list N * obsN) : nat :=
+  case_code (map N.to_nat (fst c), obs_of_N (snd c)).
